@@ -17,6 +17,7 @@ from __future__ import annotations
 import ast
 import json
 import random
+import re
 from collections import Counter
 
 from graphql import (GraphQLList, GraphQLNonNull, GraphQLObjectType, GraphQLScalarType, build_schema, get_named_type,
@@ -311,7 +312,7 @@ def k1_annotations(ctx, g_snake, g_plain, gs, ssx, leaf):
             p = {x[0]: x for x in meth.get("params", [])}.get(scen.param_name(n, snake))
             dv = dict(meth.get("dict") or []).get(n)
             exp_ann = m_arg[0] if p and p[2] else f"Union[{m_arg[0]}, UnsetType]"
-            exp_dv = m_arg[1].replace("(x)", f"({scen.param_name(n, snake)})") if "(" in m_arg[1] else scen.param_name(n, snake)
+            exp_dv = re.sub(r"\bx\b", scen.param_name(n, snake), m_arg[1])   # the model renders the parameter as x
             for what, got, exp in (("result annotation", got_r, m_res), ("input annotation", got_i, m_in),
                                    ("argument annotation", p and p[1], exp_ann), ("dict value", dv, exp_dv)):
                 if got != exp:
@@ -509,7 +510,8 @@ def evaluate(ctx, g, gs, ssx, rows):
             rep["arguments"] = {n: str(sx) for n, _t, sx, _o in payload}
             exp, m_arg, bad_vars = [], [], set()
             for n, t, sx, occ in payload:
-                m_d, m_occ, m_a, _ok, f10 = next(mres)
+                m_d, m_occ, m_a = next(mres)
+                f10 = "t"
                 m_arg += model_pylog(m_a) or []
                 if occ is not None:
                     exp += [[f, raw] for f, raw in occ]
@@ -539,11 +541,8 @@ def evaluate(ctx, g, gs, ssx, rows):
                         problems.append(f"${n} transmitted as {sent['coerced'].get(n, '<absent>')!r}, meant {intended['coerced'].get(n, '<absent>')!r}")
             else:
                 problems.append(f"sent variables rejected: {sent.get('errors') or intended.get('errors')}")
-            if problems:
-                if bad_vars:
-                    run.finding("F10-serialize-on-whole-argument", f"Echo{s}: " + "; ".join(problems[:2]), rep)
-                else:
-                    run.violation(f"Echo{s}: " + "; ".join(problems[:2]), rep)
+            if problems:      # F10 is fixed (/repo d163d56): the class is back in the main stream
+                run.violation(f"Echo{s}: " + "; ".join(problems[:2]), rep)
             continue
         if kind == "inputs":
             sxs, occ = payload
@@ -552,10 +551,9 @@ def evaluate(ctx, g, gs, ssx, rows):
             m_log, f21 = [], False
             for sx in sxs:
                 for t, v in scalar_fields_of_model(gs, sx):
-                    m_d, m_occ, _a, ok, _f10 = next(mres)
+                    m_d, m_occ, _a = next(mres)
                     md = model_pylog(m_d)
                     m_log += md or []
-                    # ok == "f": F21 shape; fixed for input fields by /repo 1ef155d -> no routing any more
                     if md != model_pylog(m_occ):
                         argenc.k1v(run, "model: dlog differs from occ_ser", rep, found_input=False)
             run.dist("serialize_occurrences", "input-model-fields", len(exp))
